@@ -1,7 +1,7 @@
 (* Properties/C05.v — One notion of a valid name; text and wire forms round-trip. *)
-From RsdnsModel Require Import Base Cursor Names Labels.
+From RsdnsModel Require Import Base Cursor Names Labels Writer.
 From RsdnsModel.Spec Require Import WireName NameText.
-From RsdnsModel.Proofs Require Import CursorSafe LabelsSound NameText.
+From RsdnsModel.Proofs Require Import CursorSafe LabelsSound NameText WriterSafe WriterLayout RoundTrip.
 Open Scope N_scope.
 
 (* The checker shared by both parsers accepts exactly the valid name texts of Spec/NameText.v
@@ -33,3 +33,32 @@ Proof.
   (* a decoded name already ends with the root dot *)
   apply canon_join.
 Qed.
+
+(* The encoder agrees with the same notion of validity and with the spec's labels: it succeeds
+   only on valid texts and then writes exactly length octet + label for each label of
+   [text_labels], then the root octet (the root "." is the single zero octet), nothing else. *)
+Theorem C05_encoder_exact : forall w s w' n, wpos w <= wcap w ->
+  write_name w s = Ok (w', n) ->
+  valid_text s = true /\ written w w' (qname_wire s) /\ n = lenN (qname_wire s) /\ n <= 255.
+Proof.
+  intros w s w' n Hw H. destruct (write_name_refuses_invalid _ _ _ _ H) as [Hc Hn].
+  destruct (write_name_layout _ _ _ _ Hw H) as [H1 H2].
+  split; [apply check_name_valid; assumption|]. split; [assumption|]. split; assumption.
+Qed.
+
+(* decoding the uncompressed wire form of any valid labels, anywhere in any message, gives their
+   text with the root dot and resumes right behind it *)
+Theorem C05_decode_plain : forall msg nk pre ls post c,
+  msg = pre ++ wire_encode ls ++ post -> cwf msg c -> pos c = lenN pre -> lenN pre + wire_len ls <= lim c ->
+  Forall (fun l => label_ok l = true) ls -> wire_len ls <= 255 ->
+  read_name msg nk c = Ok (join_labels ls, c_set_pos c (lenN pre + wire_len ls)).
+Proof. exact read_name_plain. Qed.
+
+(* ROUND TRIP text -> wire -> text: what the encoder wrote for a text name decodes, as Name and
+   as InlineName, to the canonical spelling of that text (same bytes, root dot added if missing),
+   and decoding resumes right behind the encoded name *)
+Theorem C05_encode_then_decode : forall w s w' n nk,
+  wpos w <= wcap w -> write_name w s = Ok (w', n) ->
+  let c := mkCursor (wpos w') (wpos w) None in
+  read_name (wbuf w') nk c = Ok (canon_text s, c_set_pos c (wpos w')).
+Proof. exact encode_then_decode. Qed.
